@@ -64,6 +64,11 @@ func shrinkW4C(raw json.RawMessage) []json.RawMessage {
 		c.ConsumerUs = 0
 		out = append(out, mustJSON(c))
 	}
+	if o.ConsumerStops {
+		c := clone()
+		c.ConsumerStops = false
+		out = append(out, mustJSON(c))
+	}
 	return out
 }
 
@@ -89,6 +94,9 @@ type w4cOps struct {
 	// NoWatcher: the inotify instance cannot be created (EMFILE); nothing can be noticed then, only the end of the
 	// stream at shutdown is judged
 	NoWatcher bool `json:"no_watcher,omitempty"`
+	// ConsumerStops: the consumer stops taking notifications the moment the application shuts down (as Manager.Run
+	// does: it selects on the context as well); the watcher has to stop all the same
+	ConsumerStops bool `json:"consumer_stops,omitempty"`
 }
 
 func isToml(name string) bool { return strings.HasSuffix(strings.ToLower(name), ".toml") }
@@ -120,6 +128,12 @@ func genW4C(r *simrt.Rng) *w4cOps {
 		o.Ops = append(o.Ops, op)
 	}
 	o.NoWatcher = r.Chance(0.04)
+	if r.Chance(0.3) {
+		o.ConsumerStops = true
+		if o.CancelMs < 0 && r.Chance(0.7) {
+			o.CancelMs = r.Intn(300)
+		}
+	}
 	return o
 }
 
@@ -193,13 +207,43 @@ func runW4C19(t *testing.T, job *Job, seed uint64, rp *Replay) RunOut {
 			fsnotify.NewWatcherErr = errors.New("too many open files")
 		}
 		ctx, cancel := context.WithCancel(context.Background())
-		changes := config.DetectDeviceConfigChanges(ctx)
+		// the watcher is started from a task of its own, so that everything it starts can be told apart
+		var changes <-chan bool
+		hostID := ""
+		simrt.Go("watcherhost", func() {
+			hostID = simrt.SelfID()
+			changes = config.DetectDeviceConfigChanges(ctx)
+		})
 		// let the watcher register its four directories
 		simrt.WaitIdle()
 		consumerDone := false
+		shutDown := false
 		simrt.Go("consumer", func() {
 			for {
-				_, ok := simrt.Recv(changes)
+				var ok bool
+				if ops.ConsumerStops {
+					// a consumer that selects on the context too: it polls, and stops for good at shutdown
+					for {
+						mu.Lock()
+						sd := shutDown
+						mu.Unlock()
+						if sd {
+							return
+						}
+						_, got, closed := simrt.TryRecv(changes)
+						if closed {
+							ok = false
+							break
+						}
+						if got {
+							ok = true
+							break
+						}
+						simrt.Sleep(500 * time.Microsecond)
+					}
+				} else {
+					_, ok = simrt.Recv(changes)
+				}
 				if !ok {
 					mu.Lock()
 					closedAt = simrt.Now()
@@ -330,6 +374,9 @@ func runW4C19(t *testing.T, job *Job, seed uint64, rp *Replay) RunOut {
 			cancelAt = simrt.Now()
 			mu.Unlock()
 			simrt.Yield("h.cancel")
+			mu.Lock()
+			shutDown = true
+			mu.Unlock()
 			cancel()
 			cancelled = true
 		}
@@ -419,11 +466,36 @@ func runW4C19(t *testing.T, job *Job, seed uint64, rp *Replay) RunOut {
 			cancelAt = simrt.Now()
 			mu.Unlock()
 			simrt.Yield("h.cancel")
+			mu.Lock()
+			shutDown = true
+			mu.Unlock()
 			cancel()
 		} else if tomlWriteCalls == 0 && nn > 0 {
 			mk("notification_without_toml_write", fmt.Sprintf("%d notifications although no *.toml file in the four directories was modified", nn))
 		}
 		end := simrt.Now() + 5*time.Second
+		if ops.ConsumerStops {
+			// nobody takes notifications any more: the watcher and everything it started must end all the same,
+			// and the stream must be closed
+			for simrt.Now() < end && len(simrt.AliveUnder(hostID)) > 0 {
+				simrt.Sleep(20 * time.Millisecond)
+			}
+			if alive := simrt.AliveUnder(hostID); len(alive) > 0 {
+				mk("watcher_does_not_stop", fmt.Sprintf("5 simulated seconds after the context was cancelled (the consumer stopped taking notifications at that moment, as Manager.Run does) the watcher is still there: %v", alive))
+				simrt.Stop()
+				return
+			}
+			closed := false
+			for k := 0; k < 64 && !closed; k++ {
+				_, _, closed = simrt.TryRecv(changes)
+			}
+			if !closed {
+				mk("stream_not_closed_after_cancel", "the watcher's goroutines have ended but the notification channel is not closed")
+			}
+			mu.Lock()
+			consumerDone = true
+			mu.Unlock()
+		}
 		for simrt.Now() < end {
 			mu.Lock()
 			d := consumerDone
@@ -465,6 +537,9 @@ func runW4C19(t *testing.T, job *Job, seed uint64, rp *Replay) RunOut {
 	}
 	if ops.Reload {
 		ro.Faults["reload_during_save"]++
+	}
+	if ops.ConsumerStops {
+		ro.Faults["consumer_stops_at_shutdown"]++
 	}
 	if ops.NoWatcher {
 		ro.Faults["inotify_unavailable"]++
